@@ -300,7 +300,7 @@ def check(P: Project, R: Report) -> None:
     wr, loop = _stdio.writer(P)
     R.fn(wr.fq)
     cl = _stdio.client(P)
-    writers = [wr] + [f for f in P.methods(cl).values() if f is not wr and any(isinstance(c, ast.Call) and call_name(c).endswith("stdin.send") for c in walk_local(f.node))]
+    writers = [wr] + [f for f in P.methods(cl).values() if f is not wr and any(_stdio.is_stdin_write(c, f.node) for c in walk_local(f.node))]
     n = 0
     for f in writers:
         for c in walk_local(f.node):
